@@ -161,14 +161,17 @@ Print Assumptions C17_alloc_uncapped_refuted.
     decompresses and validates, every stored table has all its blocks, block indices, table
     index and profile, every stored commit has its parents - for EVERY packfile and EVERY
     outcome (accepted, rejected with an error, or even a panic), for any hash function,
-    decompressor and block-index sums.  Hence nothing a rejected object refers to, and no
+    decompressor and block-index sums, and under EVERY store fault: the n-th Store.Set failing,
+    every Set on one key prefix failing, the n-th Store.Get failing (the table object is
+    written after its index and profile, so a failed write never leaves it behind).  Hence nothing a rejected object refers to, and no
     table or commit referring to something missing, is ever left stored. *)
 Theorem C17_reject_clean :
   forall (H : bytes -> bytes) (unz : bytes -> option bytes) (idx_sum : bytes -> list N -> bytes)
          (parse_int parse_tz : bytes -> option Z) (pc : precap)
+         (fp : faults)   (* which Store.Set (by position or by key prefix) / Store.Get fails *)
          (st : store) (pack : bytes) (r : res unit) (st' : store) (m : N),
   closed unz parse_int parse_tz pc st ->
-  receive H unz idx_sum parse_int parse_tz pc st pack = (r, st', m) ->
+  receive H unz idx_sum parse_int parse_tz pc fp st pack = (r, st', m) ->
   closed unz parse_int parse_tz pc st' /\
   ext st st'.       (* and no key is ever removed *)
 Proof. exact DecReceive_proofs.receive_closed. Qed.
@@ -178,10 +181,10 @@ Print Assumptions C17_reject_clean.
     well-formed packfile, for every hash and every decompressor that yields bytes. *)
 Theorem C17_receive_total :
   forall (H : bytes -> bytes) (unz : bytes -> option bytes) (idx_sum : bytes -> list N -> bytes)
-         (parse_int parse_tz : bytes -> option Z) (cp : N),
+         (parse_int parse_tz : bytes -> option Z) (cp : N) (fp : faults),
   (forall b c, unz b = Some c -> wf_bytes c) ->
   forall (st : store) (pack : bytes), wf_bytes pack ->
-    let r := fst (fst (receive H unz idx_sum parse_int parse_tz (Capped cp) st pack)) in
+    let r := fst (fst (receive H unz idx_sum parse_int parse_tz (Capped cp) fp st pack)) in
     r <> Panic /\ r <> Err CFuel.
 Proof. exact DecReceive_proofs.receive_total. Qed.
 Print Assumptions C17_receive_total.
@@ -199,11 +202,73 @@ Print Assumptions C17_reject_clean_empty.
     makes Receive allocate at least 2^32 - 1 bytes, whatever hash / decompressor is assumed. *)
 Theorem C17_alloc_s2_refuted :
   forall (H : bytes -> bytes) (unz : bytes -> option bytes) (idx_sum : bytes -> list N -> bytes)
-         (parse_int parse_tz : bytes -> option Z),
+         (parse_int parse_tz : bytes -> option Z) (fp : faults),
   length s2_witness = 15%nat /\
-  4294967295 <= snd (receive H unz idx_sum parse_int parse_tz precap_of_code empty_store s2_witness).
-Proof. exact (fun H unz idx_sum pi ptz => conj eq_refl (DecReceive_proofs.receive_s2_alloc H unz idx_sum pi ptz)). Qed.
+  4294967295 <= snd (receive H unz idx_sum parse_int parse_tz precap_of_code fp empty_store s2_witness).
+Proof. exact (fun H unz idx_sum pi ptz fp => conj eq_refl (DecReceive_proofs.receive_s2_alloc H unz idx_sum pi ptz fp)). Qed.
 Print Assumptions C17_alloc_s2_refuted.
+
+(** the same in the persistence layer (known finding class store-alloc-s2): GetBlock /
+    GetBlockIndex over a stored value  ff ff ff ff 0f *)
+Theorem C17_alloc_store_s2_refuted : forall unz : bytes -> option bytes,
+  4294967295 <= snd (load_block unz precap_of_code (Some [255; 255; 255; 255; 15])) /\
+  4294967295 <= snd (load_block_index unz (Some [255; 255; 255; 255; 15])).
+Proof. exact DecReceive_proofs.load_block_s2_alloc. Qed.
+Print Assumptions C17_alloc_store_s2_refuted.
+
+(** ** The persistence-layer readers over a hostile stored value ([None] = no such key):
+    never a panic, never out of fuel, allocation linear (except the s2 header above).
+    GetCommit / GetTable assign .Sum on the returned object before checking the error: with
+    a reader that returns an object together with its error (the code as it is) that is
+    harmless ... *)
+Theorem C17_get_commit : forall (parse_int parse_tz : bytes -> option Z) (v : option bytes),
+  stored_wf v ->
+  let r := fst (get_commit parse_int parse_tz true v) in
+  (r <> Panic /\ r <> Err CFuel) /\
+  forall b, v = Some b -> snd (get_commit parse_int parse_tz true v) <= 16 * N.of_nat (length b) + 196817.
+Proof. exact DecReceive_proofs.get_commit_robust. Qed.
+Print Assumptions C17_get_commit.
+
+Theorem C17_get_table : forall v : option bytes, stored_wf v ->
+  let r := fst (get_table precap_of_code true v) in
+  (r <> Panic /\ r <> Err CFuel) /\
+  forall b, v = Some b -> snd (get_table precap_of_code true v) <= 16 * N.of_nat (length b) + 865536.
+Proof. exact (DecReceive_proofs.get_table_robust (fun _ => None) (fun _ => None)). Qed.
+Print Assumptions C17_get_table.
+
+Theorem C17_get_block : forall unz : bytes -> option bytes,
+  (forall b c, unz b = Some c -> wf_bytes c) -> forall v : option bytes,
+  let r := fst (load_block unz precap_of_code v) in r <> Panic /\ r <> Err CFuel.
+Proof. exact DecReceive_proofs.load_block_good. Qed.
+Print Assumptions C17_get_block.
+
+Theorem C17_get_block_index : forall unz : bytes -> option bytes,
+  (forall b c, unz b = Some c -> wf_bytes c) -> forall v : option bytes,
+  let r := fst (load_block_index unz v) in r <> Panic /\ r <> Err CFuel.
+Proof. exact DecReceive_proofs.load_block_index_good. Qed.
+Print Assumptions C17_get_block_index.
+
+Theorem C17_get_table_index : forall v : option bytes, stored_wf v ->
+  let r := fst (get_table_index precap_of_code v) in
+  (r <> Panic /\ r <> Err CFuel) /\
+  forall b, v = Some b -> snd (get_table_index precap_of_code v) <= 16 * N.of_nat (length b) + 840960.
+Proof. exact (DecReceive_proofs.get_table_index_robust (fun _ => None) (fun _ => None)). Qed.
+Print Assumptions C17_get_table_index.
+
+Theorem C17_get_table_profile : forall v : option bytes, stored_wf v ->
+  let r := fst (get_table_profile precap_of_code v) in
+  (r <> Panic /\ r <> Err CFuel) /\
+  forall b, v = Some b -> snd (get_table_profile precap_of_code v) <= 96 * N.of_nat (length b) + 849152.
+Proof. exact (DecReceive_proofs.get_table_profile_robust (fun _ => None) (fun _ => None)). Qed.
+Print Assumptions C17_get_table_profile.
+
+(** ... and with a reader that returns NO object on error it is a nil dereference: the empty
+    stored value makes GetCommit / GetTable panic *)
+Theorem C17_get_nil_object_refuted : forall parse_int parse_tz : bytes -> option Z,
+  fst (get_commit parse_int parse_tz false (Some [])) = Panic /\
+  fst (get_table precap_of_code false (Some [])) = Panic.
+Proof. exact DecReceive_proofs.get_nil_object_panics. Qed.
+Print Assumptions C17_get_nil_object_refuted.
 
 (** Non-vacuity: a valid one-row block decodes (and is within the allocation bound); the
     robustness statements are about all inputs, this shows the Ok branch is inhabited. *)
